@@ -181,6 +181,26 @@ def compare_query(sc, py, lean, observables):
     if not sc.get("traced", True):
         mach = untrace(mach)
         spec = dict(spec, top=[e for e in spec["top"] if e[0] != "T"])
+    ra = sc.get("reiter_at")
+    if ra is not None and api in ("find", "find_matches"):
+        # iter() again before call `ra`: both halves are runs from the start (the model's reading
+        # of MatchTraverser.__iter__); the rest of the comparison is python vs machine, call by call
+        if "segments" in observables:
+            # no property says what iter() does to a live iterator.  Property level: what follows
+            # must be a run from the start (the library's reading) or the continuation (the
+            # iterator protocol's); only something else is a failing input.  Which of the two
+            # it is, is part of the model tie below.
+            d_restart = segments_diff(py[:ra], spec, api) or segments_diff(py[ra:], spec, api)
+            d_continue = segments_diff(py, spec, api)
+            if d_restart and d_continue:
+                return [("spec", "segments", "with iter() called again before call %d, neither a restart (%s) nor a continuation (%s)"
+                         % (ra, d_restart, d_continue))]
+        pyd = strip_depth(py)
+        if pyd != mach:
+            pm, mm = prune(pyd, observables), prune(mach, observables)
+            if pm != mm:
+                return [("mach", "segments", first_diff(pm, mm))]
+        return []
     if "segments" in observables and api in ("find", "find_matches"):
         d = segments_diff(py, spec, api)
         if d:
